@@ -5,9 +5,10 @@ G="$1"; BUD="${2:-6}"
 cd "$(dirname "$0")" || exit 2
 ROOT="$(pwd)"
 mkdir -p benign
-if [ -d /tmp/ben/$G/BENIGN ]; then
-  for f in /tmp/ben/$G/BENIGN/b*.diff; do cp "$f" benign/$G-$(basename "$f"); done
-  cp /tmp/ben/$G/BENIGN/README.md benign/$G-README.md 2>/dev/null
+SRC="${BEN_SRC:-/tmp/ben}"
+if [ -d $SRC/$G/BENIGN ]; then
+  for f in $SRC/$G/BENIGN/b*.diff; do cp "$f" benign/$G-$(basename "$f"); done
+  cp $SRC/$G/BENIGN/README.md benign/$G-README.md 2>/dev/null
 fi
 SCR=$(mktemp -d /tmp/benign.XXXXXX)
 git clone -q /repo "$SCR/repo" || exit 2
